@@ -1,11 +1,13 @@
 (* C14 -- Query filters evaluate as documented, survive archiving, tolerate bad archives.
-   Property theorems only: each is closed by [exact] of a lemma proved under Flt/. *)
-From Coq Require Import List NArith Strings.Byte.
-From Muscle Require Import Gen.Consts Msg.MsgDefs Msg.MsgModel Flt.FltModel Flt.FltArchive Flt.FltProofs Flt.FltArchiveProofs.
+   Property theorems only: each is closed by [exact] of a lemma proved under Flt/.
+   (the model: Flt/FltModel.v evaluator, Flt/FltArchive.v archive codec, Flt/FltParse.v expression parser) *)
+From Coq Require Import List NArith ZArith Strings.Byte.
+From Muscle Require Import Gen.Consts Msg.MsgDefs Msg.MsgModel Flt.FltModel Flt.FltArchive Flt.FltParse
+  Flt.FltProofs Flt.FltArchiveProofs Flt.FltDocProofs Flt.FltNumProofs Flt.FltParseProofs Flt.FltParseStruct.
 Import ListNotations.
 Local Open Scope N_scope.
 
-(* ---- combinators: ThresholdMaxAux's loop with both early exits computes the documented count rule *)
+(* ================= combinators: ThresholdMaxAux's loop with both early exits = the documented count rule *)
 Theorem C14_min_match_is_count : forall smatch node n kids m,
   eval smatch node (FMin n kids) m =
   if flist_len kids =? 0 then true else N.min n (flist_len kids - 1) <? nmatch smatch node kids m.
@@ -43,7 +45,104 @@ Theorem C14_nor_truth_table : forall smatch node kids m,
 Proof. exact eval_nor. Qed.
 Print Assumptions C14_nor_truth_table.
 
-(* ---- archiving *)
+(* ================= numeric filters *)
+Theorem C14_numeric_operator_table : forall o,
+  ord_test c_NQF_OP_EQUAL_TO o = match o with OEq => true | _ => false end /\
+  ord_test c_NQF_OP_LESS_THAN o = match o with OLt => true | _ => false end /\
+  ord_test c_NQF_OP_GREATER_THAN o = match o with OGt => true | _ => false end /\
+  ord_test c_NQF_OP_LESS_THAN_OR_EQUAL_TO o = match o with OLt | OEq => true | _ => false end /\
+  ord_test c_NQF_OP_GREATER_THAN_OR_EQUAL_TO o = match o with OGt | OEq => true | _ => false end /\
+  ord_test c_NQF_OP_NOT_EQUAL_TO o = match o with OEq => false | _ => true end.
+Proof. exact ord_test_table. Qed.
+Print Assumptions C14_numeric_operator_table.
+
+Theorem C14_unknown_numeric_operator_never_matches : forall op o, c_NQF_NUM_NUMERIC_OPERATORS <= op -> ord_test op o = false.
+Proof. exact ord_test_unknown. Qed.
+Print Assumptions C14_unknown_numeric_operator_never_matches.
+
+(* a NaN on either side: ==, <, >, <=, >= are false and != is true *)
+Theorem C14_nan_is_unordered : forall eb mb x y,
+  f_is_nan eb mb x = true \/ f_is_nan eb mb y = true ->
+  forall op, ord_test op (f_ord eb mb x y) = (op =? c_NQF_OP_NOT_EQUAL_TO).
+Proof. exact nan_compare_table. Qed.
+Print Assumptions C14_nan_is_unordered.
+
+Theorem C14_negative_zero_equals_zero :
+  (f_ord 8 23 2147483648 0 = OEq /\ f_ord 8 23 0 2147483648 = OEq) /\
+  (f_ord 11 52 9223372036854775808 0 = OEq /\ f_ord 11 52 0 9223372036854775808 = OEq).
+Proof. exact zeros_equal. Qed.
+Print Assumptions C14_negative_zero_equals_zero.
+
+Theorem C14_infinity_is_top : forall eb mb x,
+  f_is_nan eb mb x = false -> f_ord eb mb x (pos_inf eb mb) <> OGt /\ f_ord eb mb x (pos_inf eb mb) <> OUn.
+Proof. exact pos_inf_is_top. Qed.
+Print Assumptions C14_infinity_is_top.
+
+Theorem C14_integers_compare_as_twos_complement : forall w a b, 0 < w ->
+  let x := sval w (uval w a) in let y := sval w (uval w b) in
+  (int_ord w a b = OLt <-> (x < y)%Z) /\ (int_ord w a b = OGt <-> (x > y)%Z) /\
+  (int_ord w a b = OEq <-> uval w a = uval w b) /\ int_ord w a b <> OUn.
+Proof. exact int_ord_spec. Qed.
+Print Assumptions C14_integers_compare_as_twos_complement.
+
+Theorem C14_mask_operations_bitwise : forall w mop v m i, i < w ->
+  N.testbit (mask_u w mop v m) i = bitop mop (N.testbit v i) (N.testbit m i).
+Proof. exact mask_bits. Qed.
+Print Assumptions C14_mask_operations_bitwise.
+
+Theorem C14_missing_value_rule : forall t m name idx op mop val msk def,
+  num_matches t m name idx op mop val msk def =
+  match find_fix m name (nt_tc t) idx with
+  | Some v => num_test t op (num_apply_mask t mop v msk) val
+  | None => match def with
+            | Some d => num_test t op (num_apply_mask t mop d msk) val
+            | None => false
+            end
+  end.
+Proof. exact num_matches_rule. Qed.
+Print Assumptions C14_missing_value_rule.
+
+(* ================= raw-data filters: each operator is the documented relation on byte strings *)
+Theorem C14_raw_equal : forall my his, raw_op c_RQF_OP_EQUAL_TO my his = true <-> his = my.
+Proof. exact raw_equal_to. Qed.
+Print Assumptions C14_raw_equal.
+Theorem C14_raw_less_than : forall my his, raw_op c_RQF_OP_LESS_THAN my his = true <-> lex_cmp (ub his) (ub my) = Lt.
+Proof. exact raw_less_than. Qed.
+Print Assumptions C14_raw_less_than.
+Theorem C14_raw_starts_with : forall my his, raw_op c_RQF_OP_STARTS_WITH my his = true <-> exists t, his = my ++ t.
+Proof. exact raw_starts_with. Qed.
+Print Assumptions C14_raw_starts_with.
+Theorem C14_raw_ends_with : forall my his, raw_op c_RQF_OP_ENDS_WITH my his = true <-> exists t, his = t ++ my.
+Proof. exact raw_ends_with. Qed.
+Print Assumptions C14_raw_ends_with.
+Theorem C14_raw_contains : forall my his, raw_op c_RQF_OP_CONTAINS my his = true <-> exists a b, his = a ++ my ++ b.
+Proof. exact raw_contains. Qed.
+Print Assumptions C14_raw_contains.
+Theorem C14_raw_subset_of : forall my his, raw_op c_RQF_OP_SUBSET_OF my his = true <-> exists a b, my = a ++ his ++ b.
+Proof. exact raw_subset_of. Qed.
+Print Assumptions C14_raw_subset_of.
+
+(* ================= string filters *)
+Theorem C14_string_starts_with : forall smatch v s, str_op smatch c_SQF_OP_STARTS_WITH v s = true <-> exists t, s = v ++ t.
+Proof. exact str_starts_with. Qed.
+Print Assumptions C14_string_starts_with.
+Theorem C14_string_contains : forall smatch v s,
+  str_op smatch c_SQF_OP_CONTAINS v s = true <-> s <> [] /\ exists a b, s = a ++ v ++ b.
+Proof. exact str_contains. Qed.
+Print Assumptions C14_string_contains.
+Theorem C14_string_contains_ignorecase : forall smatch v s,
+  str_op smatch c_SQF_OP_CONTAINS_IGNORECASE v s = true <-> s <> [] /\ v <> [] /\ exists a b, lb s = a ++ lb v ++ b.
+Proof. exact str_contains_ic. Qed.
+Print Assumptions C14_string_contains_ignorecase.
+Theorem C14_string_equal_ignorecase : forall smatch v s, str_op smatch c_SQF_OP_EQUAL_TO_IGNORECASE v s = true <-> lb s = lb v.
+Proof. exact str_equal_to_ic. Qed.
+Print Assumptions C14_string_equal_ignorecase.
+Theorem C14_unknown_string_operator_never_matches : forall smatch v s op,
+  c_SQF_NUM_STRING_OPERATORS <= op -> str_op smatch op v s = false.
+Proof. exact str_unknown_op. Qed.
+Print Assumptions C14_unknown_string_operator_never_matches.
+
+(* ================= archiving *)
 Theorem C14_archive_roundtrip : forall f, wf_filter f -> from_archive (to_archive f) = Ok f.
 Proof. exact archive_roundtrip. Qed.
 Print Assumptions C14_archive_roundtrip.
@@ -55,12 +154,55 @@ Theorem C14_archive_decides_identically : forall f,
 Proof. exact archive_decides_identically. Qed.
 Print Assumptions C14_archive_decides_identically.
 
-(* ---- untrusted archives *)
+(* ================= untrusted archives *)
 Theorem C14_from_archive_total : forall a, exists r, from_archive a = r /\ (r = Err \/ exists f, r = Ok f).
 Proof. exact from_archive_total. Qed.
 Print Assumptions C14_from_archive_total.
 
-(* ---- non-vacuity: the premises are satisfiable by non-trivial filters *)
+(* ================= expression strings *)
+Theorem C14_parse_total : forall atof d2f (e : bytes),
+  let chars := ub e in
+  let s := lex_all (S (length chars)) chars in
+  okerr (p_loop atof d2f (length (fst s) + 8) s pst0).
+Proof. exact parse_expr_total. Qed.
+Print Assumptions C14_parse_total.
+
+Theorem C14_lexer_fuel_adequate : forall e f1 f2,
+  (length e < f1)%nat -> (length e < f2)%nat -> lex_all f1 e = lex_all f2 e.
+Proof. exact lex_all_fuel_adequate. Qed.
+Print Assumptions C14_lexer_fuel_adequate.
+
+Theorem C14_word_of_letters_is_one_token : forall w rest,
+  forallb is_alpha w = true -> scan_word (w ++ 32 :: rest) = (w, 32 :: rest).
+Proof. exact scan_word_letters. Qed.
+Print Assumptions C14_word_of_letters_is_one_token.
+
+Theorem C14_field_name_index_default : forall name digits def,
+  name <> [] -> mem_char 58 name = false -> mem_char 124 name = false ->
+  mem_char 58 digits = false -> mem_char 124 digits = false -> mem_char 124 def = false ->
+  (0 <= atol digits)%Z ->
+  parse_field_name (user_tok (name ++ 58 :: digits ++ 124 :: def) false) true
+  = Ok (name, pat 32 (atol digits), Some def).
+Proof. exact field_spec_full. Qed.
+Print Assumptions C14_field_name_index_default.
+
+(* the parser builds the tree the grammar denotes (token level; any nesting, any number of operands):
+   a body is a predicate `[!] t1..tn` or `operand K operand K ..`; an operand is `[!] ( body )` *)
+Theorem C14_parser_builds_denoted_tree : forall atof d2f b,
+  wf_body b ->
+  p_loop atof d2f (length (toks_body b) + 8) (toks_body b, None) pst0
+  = bind (den_body atof d2f b) (fun f => Ok (f, ([], None))).
+Proof. exact parse_body. Qed.
+Print Assumptions C14_parser_builds_denoted_tree.
+
+Theorem C14_parser_builds_denoted_tree_operand : forall atof d2f o,
+  wf_op o ->
+  p_loop atof d2f (length (toks_op o) + 8) (toks_op o, None) pst0
+  = bind (den_op atof d2f o) (fun f => Ok (f, ([], None))).
+Proof. exact parse_operand. Qed.
+Print Assumptions C14_parser_builds_denoted_tree_operand.
+
+(* ================= non-vacuity: the premises are satisfiable by non-trivial instances *)
 Example C14_wf_example :
   wf_filter (FAnd (LCons (FNum (KNum NFloat) [x61] 2 4 0 [x00; x00; xc0; x7f] [x00; x00; x00; x00] (Some [x00; x00; x00; x80]))
             (LCons (FMsg [x6d] 0 (OSome (FStr false [x73] 0 8 [x67; x72] None)) None)
@@ -69,3 +211,26 @@ Proof. cbv [wf_filter wf_flist wf_ofilter FAnd opt_nonempty]. repeat split; try 
 
 Example C14_and_len_example : flist_len (LCons (FWhat 0 0) (LCons (FWhat 1 1) LNil)) <= c_MUSCLE_NO_LIMIT.
 Proof. vm_compute. discriminate. Qed.
+
+Example C14_nan_example : f_is_nan 8 23 2143289344 = true /\ f_is_nan 11 52 9221120237041090560 = true.   (* 0x7fc00000, 0x7ff8000000000000 *)
+Proof. split; reflexivity. Qed.
+
+Example C14_not_nan_example : f_is_nan 8 23 1065353216 = false.        (* 1.0f *)
+Proof. reflexivity. Qed.
+
+Example C14_letters_example : forallb is_alpha [101; 121; 101; 99; 111; 108; 111; 114] = true.     (* "eyecolor" *)
+Proof. reflexivity. Qed.
+
+Example C14_field_spec_example :          (* "age:2|18" *)
+  [97; 103; 101] <> [] /\ mem_char 58 [97; 103; 101] = false /\ mem_char 124 [97; 103; 101] = false /\
+  mem_char 58 [50] = false /\ mem_char 124 [50] = false /\ mem_char 124 [49; 56] = false /\ (0 <= atol ([50]%N))%Z.
+Proof. repeat split; try reflexivity; try discriminate. Qed.
+
+Example C14_wf_body_example :      (* ( a == 1 ) && !( b < 2 ) *)
+  wf_body (BConj c_LTOKEN_AND
+             (OGroup false (BLeaf false [user_tok [97] false; fixed_tok c_LTOKEN_EQ; user_tok [49] false]))
+             (OCons (OGroup true (BLeaf false [user_tok [98] false; fixed_tok c_LTOKEN_LT; user_tok [50] false])) ONil)).
+Proof. cbn. repeat split; try reflexivity; try discriminate; repeat constructor. Qed.
+
+Example C14_unknown_op_example : c_NQF_NUM_NUMERIC_OPERATORS <= 200 /\ c_SQF_NUM_STRING_OPERATORS <= 200.
+Proof. split; vm_compute; discriminate. Qed.
